@@ -515,9 +515,9 @@ func (st *gstate) queries(variant int) []Finding {
 			go func() { g.CalculateDepths(); close(done) }()
 			select {
 			case <-done:
-			case <-time.After(3 * time.Second):
+			case <-time.After(20 * time.Second):
 				st.hung = true
-				bad("CalculateDepths", "did not terminate within 3s on an acyclic graph")
+				bad("CalculateDepths", "did not terminate within 20s on an acyclic graph")
 				return
 			}
 			memo := map[int]int{}
